@@ -372,6 +372,192 @@ static void run_range(vfh::Rng &rng, vfh::Reporter &R, long shard, long nshards,
   }
 }
 
+
+// ------------------------------------------------------------------ (B2) range objects used more than once, adjacent blocks
+static std::vector<long> blk_seq(long a, long s, long b) {
+  std::vector<long> v;
+  if (s > 0) for (long x = a; x <= b; x += s) v.push_back(x);
+  else for (long x = a; x >= b; x += s) v.push_back(x);
+  return v;
+}
+static bool iter_all(votca::tools::RangeParser &rp, std::vector<long> &seq) { seq.clear(); return iterate(rp, seq); }
+static std::string printed(const votca::tools::RangeParser &rp) { std::ostringstream os; os << rp; return os.str(); }
+
+// blocks that follow each other exactly one stride after the written end of the previous block
+static void run_range_adjacent(vfh::Rng &rng, vfh::Reporter &R, long shard, long nshards, long nrandom) {
+  struct B3 { long a, s, b; };
+  long idx = 0;
+  auto one = [&](const std::vector<B3> &bl) {
+    std::vector<long> want;
+    std::string expr, calls;
+    for (size_t q = 0; q < bl.size(); ++q) {
+      auto v = blk_seq(bl[q].a, bl[q].s, bl[q].b);
+      want.insert(want.end(), v.begin(), v.end());
+      expr += (q ? "," : "") + std::to_string(bl[q].a) + ":" + std::to_string(bl[q].s) + ":" + std::to_string(bl[q].b);
+      calls += "Add(" + std::to_string(bl[q].a) + "," + std::to_string(bl[q].b) + "," + std::to_string(bl[q].s) + ") ";
+    }
+    bool offl = false;
+    for (size_t q = 0; q + 1 < bl.size(); ++q) offl |= ((bl[q].b - bl[q].a) % bl[q].s) != 0;
+    R.eval(bl[0].s > 0 ? "range_adjacent_blocks_positive_stride" : "range_adjacent_blocks_negative_stride", 4);
+    if (offl) R.nontrivial(vfh::hstr(24, expr));
+    std::vector<long> got;
+    auto bad = [&](const char *route, const std::string &pr) {
+      std::vector<long> head(got.begin(), got.begin() + std::min<size_t>(got.size(), 40));
+      R.violation("range/multiblock-wrong-sequence", std::string("blocks that follow each other one stride after the previous end (") + route + ") are not enumerated as the concatenation of the blocks", J().s("expression", expr).s("route", route).vec("expected_sequence", want).vec("got_sequence_first40", head).s("printed", pr));
+    };
+    try {
+      // (i) Parse
+      votca::tools::RangeParser p1;
+      p1.Parse(expr);
+      if (!iter_all(p1, got) || got != want) { bad("Parse", printed(p1)); return; }
+      // (ii) Add
+      votca::tools::RangeParser p2;
+      for (auto &k : bl) p2.Add(k.a, k.b, k.s);
+      if (!iter_all(p2, got) || got != want) { bad("Add", printed(p2)); return; }
+      // (iii) first block parsed, the others added
+      votca::tools::RangeParser p3;
+      p3.Parse(std::to_string(bl[0].a) + ":" + std::to_string(bl[0].s) + ":" + std::to_string(bl[0].b));
+      for (size_t q = 1; q < bl.size(); ++q) p3.Add(bl[q].a, bl[q].b, bl[q].s);
+      if (!iter_all(p3, got) || got != want) { bad("Parse then Add", printed(p3)); return; }
+      // (iv) print -> Parse (of each of the three)
+      for (votca::tools::RangeParser *rp : {&p1, &p2, &p3}) {
+        votca::tools::RangeParser p4;
+        std::string pr = printed(*rp);
+        p4.Parse(pr);
+        if (!iter_all(p4, got) || got != want) { bad("print -> Parse", pr); return; }
+      }
+      if (R.want_sample() && offl && bl.size() == 2 && bl[0].s == 2) R.sample(J().s("expression", expr).vec("sequence", want).s("printed", printed(p1)));
+    } catch (std::exception &e) {
+      R.violation("range/multiblock-wrong-sequence", std::string("valid adjacent blocks rejected: ") + e.what(), J().s("expression", expr).s("calls", calls));
+    }
+  };
+  for (long s : {-5L, -4L, -3L, -2L, 2L, 3L, 4L, 5L, 6L})
+    for (long off = 0; off < std::labs(s); ++off)
+      for (long a : {-7L, 0L, 1L, 12L})
+        for (long k1 : {0L, 1L, 3L})
+          for (long k2 : {0L, 2L}) {
+            if ((idx++ % nshards) != shard) continue;
+            long sg = s > 0 ? 1 : -1;
+            B3 b1{a, s, a + s * k1 + sg * off};
+            B3 b2{b1.b + s, s, b1.b + s + s * k2 + sg * (off ? 1 : 0)};
+            one({b1, b2});
+            B3 b3{b2.b + s, s, b2.b + s + s};
+            one({b1, b2, b3});
+          }
+  for (long i = 0; i < nrandom; ++i) {
+    long s = rng.range(2, 9) * (rng.coin(0.4) ? -1 : 1), sg = s > 0 ? 1 : -1;
+    std::vector<B3> bl;
+    long a = rng.range(-60, 60);
+    int nb = (int)rng.range(2, 4);
+    for (int q = 0; q < nb; ++q) {
+      long b = a + s * rng.range(0, 5) + sg * rng.range(0, std::labs(s) - 1);
+      bl.push_back({a, s, b});
+      a = rng.coin(0.8) ? b + s : b + s + sg * rng.range(1, 3);  // mostly exactly one stride later
+    }
+    one(bl);
+  }
+}
+
+static void run_range_reuse(vfh::Rng &rng, vfh::Reporter &R, long n) {
+  auto gen_expr = [&](std::vector<long> &seq) {
+    std::string e;
+    int nb = (int)rng.range(1, 3);
+    for (int q = 0; q < nb; ++q) {
+      long s = rng.range(1, 4) * (rng.coin(0.25) ? -1 : 1);
+      long a = rng.range(-30, 30), b = a + s * rng.range(0, 5) + (s > 0 ? 1 : -1) * rng.range(0, std::labs(s) - 1);
+      int fields = (s == 1 && rng.coin()) ? (a == b ? 1 : 2) : 3;
+      e += (q ? "," : "");
+      if (fields == 1) e += std::to_string(a);
+      else if (fields == 2) e += std::to_string(a) + ":" + std::to_string(b);
+      else e += std::to_string(a) + ":" + std::to_string(s) + ":" + std::to_string(b);
+      auto v = blk_seq(a, s, b);
+      seq.insert(seq.end(), v.begin(), v.end());
+    }
+    return e;
+  };
+  for (long i = 0; i < n; ++i) {
+    std::vector<long> s1, s2, got, got2;
+    std::string e1 = gen_expr(s1), e2 = gen_expr(s2);
+    std::ostringstream hist;
+    try {
+      votca::tools::RangeParser rp;
+      rp.Parse(e1);
+      hist << "Parse(\"" << e1 << "\"); ";
+      std::vector<long> cur = s1;
+      // iterate twice
+      R.eval("range_reuse_iterate_twice");
+      bool t1 = iter_all(rp, got), t2 = iter_all(rp, got2);
+      if (!t1 || !t2 || got != got2 || got != cur) { R.violation("range-reuse/second-iteration-differs", "iterating twice over one RangeParser gives different / wrong sequences", J().s("history", hist.str()).vec("expected", cur).vec("first", got).vec("second", got2)); continue; }
+      // second Parse on the same object: append (what the code does) or replace are both readings of the statement
+      R.eval("range_reuse_second_parse");
+      rp.Parse(e2);
+      hist << "Parse(\"" << e2 << "\"); ";
+      std::vector<long> app = s1;
+      app.insert(app.end(), s2.begin(), s2.end());
+      bool term = iter_all(rp, got);
+      if (term && got == app) { R.counter("second_parse_appends"); cur = app; }
+      else if (term && got == s2) { R.counter("second_parse_replaces"); cur = s2; }
+      else { R.violation("range-reuse/second-parse", "after a second Parse on the same object the sequence is neither the concatenation of both expressions nor the second alone", J().s("history", hist.str()).vec("concatenation", app).vec("second_alone", s2).vec("got", got).b("terminated", term)); continue; }
+      // Add() calls on the object that was parsed into
+      int na = (int)rng.range(1, 3);
+      for (int q = 0; q < na; ++q) {
+        long s = rng.range(1, 4) * (rng.coin(0.25) ? -1 : 1);
+        long a = rng.coin(0.4) && !cur.empty() ? cur.back() + s : rng.range(-30, 30);
+        long b = a + s * rng.range(0, 4) + (s > 0 ? 1 : -1) * rng.range(0, std::labs(s) - 1);
+        rp.Add(a, b, s);
+        hist << "Add(" << a << "," << b << "," << s << "); ";
+        auto v = blk_seq(a, s, b);
+        cur.insert(cur.end(), v.begin(), v.end());
+        R.eval("range_reuse_add_after_parse");
+        if (!iter_all(rp, got) || got != cur) { R.violation("range-reuse/add-after-parse", "Add() on an object that already holds blocks: the sequence is not the earlier sequence followed by the new block", J().s("history", hist.str()).vec("expected", cur).vec("got", got)); cur.clear(); break; }
+      }
+      if (cur.empty()) continue;
+      // print -> Parse of the re-used object
+      R.eval("range_reuse_print_parse");
+      std::string pr = printed(rp);
+      votca::tools::RangeParser fresh;
+      fresh.Parse(pr);
+      if (!iter_all(fresh, got) || got != cur) R.violation("range-reuse/print-parse-roundtrip", "the printed form of a re-used RangeParser does not parse back to its sequence", J().s("history", hist.str()).s("printed", pr).vec("expected", cur).vec("got", got));
+      R.nontrivial(vfh::hstr(25, hist.str()));
+      if (R.want_sample() && i % 50 == 7) R.sample(J().s("history", hist.str()).s("printed", pr).vec("sequence", cur));
+      // a rejected Parse on an object that holds blocks: what is left is not specified -> observation
+      if (i % 10 == 0) {
+        bool threw = false;
+        try { rp.Parse("3:5,x"); } catch (std::exception &) { threw = true; }
+        if (threw && iter_all(rp, got)) R.counter(got == cur ? "obs_failed_parse_leaves_object_unchanged" : "obs_failed_parse_keeps_blocks_parsed_before_the_error");
+      }
+    } catch (std::exception &e) {
+      R.violation("range-reuse/exception", std::string("valid sequence of calls threw: ") + e.what(), J().s("history", hist.str()));
+    }
+  }
+}
+
+// one IndexParser object called repeatedly: every call gives what a fresh object gives
+static void run_index_reuse(vfh::Rng &rng, vfh::Reporter &R, long n) {
+  votca::xtp::IndexParser ip;
+  for (long i = 0; i < n; ++i) {
+    std::string s1, s2;
+    std::vector<Index> v1;
+    for (int k = (int)rng.range(1, 6); k > 0; --k) { Index a = rng.range(0, 99); s1 += std::to_string(a) + (rng.coin() ? ":" + std::to_string(a + rng.range(0, 6)) : "") + " "; }
+    for (int k = (int)rng.range(1, 6); k > 0; --k) { Index a = rng.range(100, 199); s2 += std::to_string(a) + (rng.coin() ? ":" + std::to_string(a + rng.range(0, 6)) : "") + ","; }
+    for (int k = (int)rng.range(0, 12); k > 0; --k) v1.push_back(rng.range(0, 40));
+    R.eval("index_reuse");
+    try {
+      votca::xtp::IndexParser fresh1, fresh2, fresh3;
+      std::vector<Index> a1 = ip.CreateIndexVector(s1);
+      std::string b1 = ip.CreateIndexString(v1);
+      std::vector<Index> a2 = ip.CreateIndexVector(s2);
+      std::vector<Index> a1again = ip.CreateIndexVector(s1);
+      std::string b1again = ip.CreateIndexString(v1);
+      if (a1 != a1again || b1 != b1again || a1 != fresh1.CreateIndexVector(s1) || a2 != fresh2.CreateIndexVector(s2) || b1 != fresh3.CreateIndexString(v1))
+        R.violation("index-reuse/repeated-call-differs", "repeated calls on one IndexParser object give different results (or differ from a fresh object)", J().s("string1", s1).s("string2", s2).vec("vector", v1).vec("first", a1).vec("again", a1again).s("str_first", b1).s("str_again", b1again));
+      else if (a1.size() >= 3) R.nontrivial(vfh::hstr(vfh::hstr(33, s1), s2));
+    } catch (std::exception &e) {
+      R.violation("index-reuse/exception", std::string("valid calls threw: ") + e.what(), J().s("string1", s1).s("string2", s2));
+    }
+  }
+}
+
 // ------------------------------------------------------------------ (C) index lists
 static std::vector<Index> sorted_unique(std::vector<Index> v) {
   std::sort(v.begin(), v.end());
@@ -568,7 +754,10 @@ int main(int argc, char **argv) {
   uint64_t s = (uint64_t)seed * 7919 + (uint64_t)shard * 104729;
   { vfh::Rng r(s + 18); run_wild(r, R, shard, nshards, plen, slen, nrandom); }
   { vfh::Rng r(s + 181); run_range(r, R, shard, nshards, nmulti); }
+  { vfh::Rng r(s + 1811); run_range_adjacent(r, R, shard, nshards, nmulti / 2 + 1); }
+  { vfh::Rng r(s + 1812); run_range_reuse(r, R, nmulti / 2 + 1); }
   { vfh::Rng r(s + 1818); run_index(r, R, nindex); }
+  { vfh::Rng r(s + 1819); run_index_reuse(r, R, nindex / 4 + 1); }
   { vfh::Rng r(s + 18181); run_beadlist(r, R, nbead); }
   R.summary();
   return 0;
